@@ -19,6 +19,7 @@ package main
 //	sendstream/after-reset     STREAM data emitted after a reset without reliable size / beyond it
 //	sendstream/complete        completion reported twice, too early, or never after everything is acked
 //	sendstream/size            frame longer than the budget
+//	sendstream/datalen         popped frame without DataLenPresent
 //	sendstream/window          more new bytes than the flow-control windows allow
 //	sendstream/write-n         Write returned nil with n != len(p), or n > len(p)
 //	sendstream/panic           the code panicked
@@ -335,6 +336,9 @@ func (c *ssCase) onFrame(fr *ssFrameRec, budget int64) {
 	if l := fr.h.Length(); l > budget && (len(fr.data) > 0 || budget >= ssMinFrame) {
 		c.fail("sendstream/size", fmt.Sprintf("frame length %d exceeds budget %d (offset %d len %d)", l, budget, fr.off, len(fr.data)))
 	}
+	if !fr.h.DataLenPresent() {
+		c.fail("sendstream/datalen", fmt.Sprintf("popped frame [%d,%d) has DataLenPresent=false: the framer only clears the flag on the last frame of a packet, a frame without length in the middle of a packet swallows what follows", fr.off, end))
+	}
 	if len(fr.data) == 0 && !fr.fin {
 		c.fail("sendstream/data", "empty STREAM frame without FIN")
 	}
@@ -405,6 +409,9 @@ func (c *ssCase) snapTerm() string {
 // ---- ops ----
 
 func (c *ssCase) opWrite(n int) {
+	if c.panicked { // the code panics while holding the stream mutex
+		return
+	}
 	seed := int64(c.r.Intn(1 << 24))
 	p := ssGenData(n, seed)
 	sn := c.v.Snapshot()
@@ -695,7 +702,8 @@ func (c *ssCase) run(drain bool, flavour int) {
 		case x < 85:
 			c.opConnWin(c.maxCwin + int64(r.Range(0, 4000)))
 		case x < 89:
-			if !c.writing && (!sn.FinishedWriting || r.Chance(1, 6)) {
+			// Close while a Write is parked is documented misuse, but the code defines it (FIN follows the data): 1 in 8
+			if (!c.writing || r.Chance(1, 8)) && (!sn.FinishedWriting || r.Chance(1, 6)) {
 				c.opClose()
 			} else {
 				c.opPop(c.budget())
